@@ -690,8 +690,11 @@ def _check_range_all_cycles(nodes, active_nodes, j):
 
 def _check_cycles(dmap, node_id, nodes, cycle, active_nodes, mod=None):
     node, mod = nodes[node_id], {} if mod is None else mod
-    _map = dict(zip(node['function'].inputs, node['inputs']))
     pred, res = dmap.pred, ()
+    try:
+        _map = dict(zip(node['function'].inputs, node['inputs']))
+    except AttributeError:  # Plain link (e.g., spill anchor): not breakable.
+        return res
     check = functools.partial(_check_range_all_cycles, nodes, active_nodes)
     if not any(any(map(check, pred[k])) for k in _map.values() if k in cycle):
         cycle = [i for i, j in _map.items() if j in cycle]
